@@ -79,7 +79,8 @@ func scenarioCrashChild(t *traceWriter, rng *rand.Rand) {
 	c := newCrashWorld(*flagSeed)
 	id := f_log.ID(c.origin)
 	idB := f_log.ID(c.origB)
-	setup, old, size := crashKind(*flagKind)
+	baseKind, faultOp, _ := strings.Cut(*flagKind, "!")
+	setup, old, size := crashKind(baseKind)
 	switch *flagMode {
 	case "setup":
 		w := c.witness(*flagDB)
@@ -100,6 +101,9 @@ func scenarioCrashChild(t *traceWriter, rng *rand.Rand) {
 		drvCtl.count = 0
 		drvCtl.kill = *flagKill
 		drvCtl.mu.Unlock()
+		if faultOp != "" {
+			drvCtl.setFaults([]string{faultOp})
+		}
 		pr := [][]byte{}
 		if old > 0 && old < size {
 			pr = c.tr.consistency(old, size)
@@ -108,6 +112,9 @@ func scenarioCrashChild(t *traceWriter, rng *rand.Rand) {
 		// the acknowledgement: written (and flushed) before anything else happens
 		fmt.Printf("ACK err=%v ret=%s\n", err != nil, hx(ret))
 		os.Stdout.Sync()
+		if faultOp != "" {
+			killSelf() // a storage fault during the update, the acknowledgement (if any) is out, then the process dies
+		}
 		drvCtl.mu.Lock()
 		n := drvCtl.count
 		drvCtl.kill = 0
@@ -192,6 +199,25 @@ func scenarioCrash(t *traceWriter, rng *rand.Rand) {
 			t.line("CR kind=%s killat=%d total=%d ops=%s old=%d acked=%d killed=%d log=%s submitted=%s before=%s => after=%s",
 				kind, k, total, ops, old, acked, killed, hx([]byte(id)), hx([]byte(submitted)),
 				strings.ReplaceAll(strings.Join(append(grab(before, "STATE "), grab(before, "LOGS ")...), ";"), " ", ":"),
+				strings.ReplaceAll(strings.Join(append(grab(after, "STATE "), grab(after, "LOGS ")...), ";"), " ", ":"))
+			os.Remove(db)
+		}
+		// a storage fault in the update, then the kill: whatever was acknowledged must still be in force after the
+		// restart (a failed COMMIT / INSERT must not have been reported as success)
+		for _, fop := range []string{"commit", "exec", "begin", "query"} {
+			n++
+			db := filepath.Join(scratch, fmt.Sprintf("c%d.db", n))
+			runChild(db, "setup", kind, 0)
+			before := runChild(db, "read", kind, 0)
+			run := runChild(db, "run", kind+"!"+fop, 0)
+			after := runChild(db, "read", kind, 0)
+			acked := 0
+			if a := grab(run, "ACK "); len(a) == 1 && strings.HasPrefix(a[0], "err=false") {
+				acked = 1
+			}
+			t.line("CR kind=%s killat=%d total=%d ops=%s old=%d acked=%d killed=1 log=%s submitted=%s before=%s fault=%s => after=%s",
+				kind, total+1, total, ops, old, acked, hx([]byte(id)), hx([]byte(submitted)),
+				strings.ReplaceAll(strings.Join(append(grab(before, "STATE "), grab(before, "LOGS ")...), ";"), " ", ":"), fop,
 				strings.ReplaceAll(strings.Join(append(grab(after, "STATE "), grab(after, "LOGS ")...), ";"), " ", ":"))
 			os.Remove(db)
 		}
